@@ -142,3 +142,19 @@ Theorem C33_copy_list_complete :
     (forall x : A, In x l -> resolves x = true) <-> copy_list resolves l = l.
 Proof. exact (fun A => @copy_list_complete A). Qed.
 Print Assumptions C33_copy_list_complete.
+
+(* mjCFrame::Compile (positions only): with the `compiled` guard tested first, compiling a nested frame twice leaves the
+   accumulated pose parent + local, for every parent and local pose ... *)
+Theorem C33_frame_compile_idempotent :
+  forall parent local pos0 : Z,
+    frame_compile false parent local (frame_compile false parent local (false, pos0)) = (true, (parent + local)%Z).
+Proof. exact frame_compile_idem. Qed.
+Print Assumptions C33_frame_compile_idempotent.
+
+(* ... while copying the local spec value back before the guard drops the parent transform on the second compile
+   whenever the parent frame is not the identity *)
+Theorem C33_frame_compile_reset_refuted :
+  forall parent local pos0 : Z, parent <> 0%Z ->
+    snd (frame_compile true parent local (frame_compile true parent local (false, pos0))) <> (parent + local)%Z.
+Proof. exact frame_compile_reset_loses_parent. Qed.
+Print Assumptions C33_frame_compile_reset_refuted.
